@@ -22,6 +22,13 @@ The history is executed on ONE object built from the spec.  Oracles (all on cano
     object, filter argument objects, logging learner) taken before and after the history are identical.
 A violation is shrunk (filters / history steps removed while the same failure mode persists) so that the signature
 names the mechanism: failure mode, source kind, the minimal filter chain and the minimal history.
+
+Large-N cases.  The cases above have at most 55 interactions, so state inside a source / filter that only misbehaves once it has
+overflowed (a bounded memo or lru cache, Cache's slices, a reservoir buffer, a 'using' window) is never reached.  Every shard
+therefore also runs a fixed number of cases over 1500-5000 interactions (see RULE and the section "generators: large-N cases"):
+same builders, same history executor, same oracles; reward and feedback functions are evaluated on every offered action of every
+interaction in every read, as in the small cases.  A violating large-N case is first re-tried at an ordinary size; the signature
+carries '+large-n' only when the failure does not survive there.
 """
 import os, sys, json, time, random, pickle, shutil, tempfile, warnings, itertools, gc
 from collections import Counter
@@ -33,7 +40,11 @@ RULE  = ("seeded (pipeline, history) pairs: source kind x kind-tracked filter ch
          "look-up inside the read after j pulled interactions (j=0: before the first pull); one case = one history "
          "executed on one object; distinct & non-trivial = distinct (source kind, filter-name chain, history-op "
          "sequence, view) whose first read succeeds, with a non-empty chain or a partial read / transformation "
-         "in the history, and at least two interactions in the reference read")
+         "in the history, and at least two interactions in the reference read.  Besides these (sources of at most 55 interactions) a fixed "
+         "number of LARGE-N cases per shard: a source of 1500-5000 interactions (stored as a recipe: source kind, seed, n), a chain that holds "
+         "one designated filter -- in turn every size-sensitive filter (Grounded, Cache, Chunk, Reservoir, Shuffle, Logged) with every "
+         "transformation, then every other filter -- between 0-2 random filters whose size parameters are on the scale of n, and a history "
+         "[FULL] [PARTIAL] [transformation] FULL [PARTIAL|PARAMS] FULL [transformation FULL]; same oracles")
 PLAN  = {"quick":    {"shards": 16, "cases": 3200,  "timeout": 600,  "budget_s": 80},
          "thorough": {"shards": 16, "cases": 60000, "timeout": 3000, "budget_s": 800}}
 REQUIRED = ["oracle.full-reread", "oracle.full-reread.two-or-more-interactions", "oracle.fresh", "oracle.partial-prefix", "oracle.full-after-partial",
@@ -42,7 +53,13 @@ REQUIRED = ["oracle.full-reread", "oracle.full-reread.two-or-more-interactions",
             "reach.source.sup-xy", "reach.source.lambda", "reach.source.sup-file", "reach.source.result",
             "reach.source.saved", "reach.source.syn", "reach.source.custom", "reach.source.sup-src",
             "oracle.params-fresh", "oracle.params-during-read", "oracle.params.after-lookup-before-first-pull",
-            "oracle.params.after-abandoned-read-only", "reach.nested-categorical.encoded", "reach.nested-categorical.encoded.after-partial"]
+            "oracle.params.after-abandoned-read-only", "reach.nested-categorical.encoded", "reach.nested-categorical.encoded.after-partial",
+            # large-N cases (reference read of at least LARGE_N interactions)
+            "oracle.large-n.full-reread", "oracle.large-n.partial-prefix", "oracle.large-n.full-after-partial",
+            "oracle.large-n.after.MATERIALIZE", "oracle.large-n.after.CACHE", "oracle.large-n.after.CHUNK", "oracle.large-n.after.PICKLE",
+            "oracle.large-n.after.SAVE", "reach.large-n.filter.Grounded", "reach.large-n.filter.Cache", "reach.large-n.filter.Chunk",
+            "reach.large-n.filter.Reservoir", "reach.large-n.filter.Shuffle", "reach.large-n.filter.Logged",
+            "reach.large-n.feedbacks-reread-on-shared-interactions"]
 ASSUMPTIONS = [
     "seed=None (clock seeded) is never generated; filters that need optional packages (OpeRewards DM/DR, torch batches) are excluded",
     "a pipeline whose FIRST read raises the same exception type on the subject and on a fresh object is out of the domain "
@@ -60,6 +77,8 @@ ASSUMPTIONS = [
     "the comparison of params with a fresh object's params (after one complete read) is made only while no transformation has been "
     "applied to the subject, with the two objects' temporary directories normalised",
     "nested categoricals keep the same layout in every row of a column / key (coba locates categoricals by looking at the first row)",
+    "large-N cases have 1500-5000 interactions and 2-4 actions: state that only overflows beyond that (a bound above ~5000 items, or above "
+    "~4400-20000 reward / feedback evaluations between two reads of the same interaction) is not reached",
 ]
 
 MAX_SHRINKS_PER_SHARD = 60
@@ -1346,30 +1365,31 @@ def check_case(spec, ctx=None, do_shrink=True):
 # =================================================================================================== entry points
 def run_shard(ctx):
     sys.setrecursionlimit(10000)
-    # ---- large-N cases: a fixed number per shard, from their own stream (the regular cases are the same with and without them);
-    #      case g of the run takes entry g of BIG_ROUND, so that one round is complete after len(BIG_ROUND) cases
+    # large-N cases: a fixed number per shard, spread evenly between the regular cases (when time runs out both kinds are cut alike)
+    # and drawn from their own stream (the regular cases are the same with and without them); large-N case g of the run takes entry
+    # g of BIG_ROUND, so that one round is complete after len(BIG_ROUND) cases
     k_big = BIG_PER_SHARD.get(ctx.tier, 5)
+    every = max(1, ctx.n // k_big)
     brng = random.Random(f"{ctx.seed}/{ctx.prop}/{ctx.tier}/{ctx.shard}/large-n")
-    j = 0
-    while j < k_big and ctx.time_left() > 0:
-        g = j * ctx.nshards + ctx.shard
-        focus, tr = BIG_ROUND[g % len(BIG_ROUND)]
-        spec = gen_big_case(brng, focus, tr)
-        for sig, what, witness in check_case(spec, ctx):
-            ctx.violation(sig, what, witness)
-        if j < 1 and ctx.shard < 2: ctx.sample({"source": spec["source"], "chain": [f["f"] for f in spec["chain"]], "history": spec["history"], "view": spec["view"]})
-        j += 1
-    ctx.count("histories.large-n", j)
-    i = 0
+    i = j = 0
     while i < ctx.n and ctx.time_left() > 0:
+        if j < k_big and i == j * every:
+            focus, tr = BIG_ROUND[(j * ctx.nshards + ctx.shard) % len(BIG_ROUND)]
+            spec = gen_big_case(brng, focus, tr)
+            for sig, what, witness in check_case(spec, ctx):
+                ctx.violation(sig, what, witness)
+            if j < 1 and ctx.shard < 2: ctx.sample({"source": spec["source"], "chain": [f["f"] for f in spec["chain"]], "history": spec["history"], "view": spec["view"]})
+            j += 1
+            continue
         spec = gen_case(ctx.rng, ctx.tier)
         for sig, what, witness in check_case(spec, ctx):
             ctx.violation(sig, what, witness)
         if i < 1: ctx.sample({"source": _src_label(spec["source"]), "chain": [f["f"] for f in spec["chain"]], "history": spec["history"], "view": spec["view"]})
         i += 1
-    ctx.count("histories", i)
+    ctx.count("histories", i); ctx.count("histories.large-n", j)
     ctx.extra.pop("_shrinks", None); ctx.extra.pop("_n_ref", None); ctx.extra.pop("_fb_values", None)
     if i < ctx.n: ctx.extra["histories_skipped_for_time"] = ctx.n - i
+    if j < k_big: ctx.extra["large_n_histories_skipped_for_time"] = k_big - j
 
 def replay(witness):
     return [(sig, what) for sig, what, _ in check_case(witness, None, do_shrink=False)]
